@@ -5,6 +5,7 @@ import CedarVerif.Lemmas.PartialFull
 import CedarVerif.Lemmas.PartialBridge
 import CedarVerif.Lemmas.PartialSubst5
 import CedarVerif.Lemmas.PartialStore5
+import CedarVerif.Lemmas.PartialStore6
 /-
 C13 — partial evaluation with unknowns is sound.  Property theorems only (helpers: Lemmas/Partial*.lean).
 Model: Cedar/Partial.lean (`pinterp`, `PartialResponse`, `reauthorize`).
@@ -24,6 +25,8 @@ What is proved:
     through the uid-named unknown) and a **residual context** (`PS.CtxCompletes` in `PS.Concretizes2`).  The substitution form
     holds for direct and nested unknowns alike; the `reauthorize` form holds in ONE round when the second pass reads the
     substituted store `es`;
+  * `pinterp_sound_store_reauth_direct`: … and in one round on the *unsubstituted* store exactly when every residual
+    attribute is a direct `Unknown` and no tag is residual (`PS.DirectUnk`);
   * `second_round_needed`, `direct_unknown_one_round` (kernel-checked): on the *unsubstituted* store one round leaves a
     nested unknown (and a direct unknown *tag*) undiscovered, a second round resolves it; a direct unknown *attribute* is
     resolved in one round (`get_attr` passes exactly direct `Unknown`s through the mapper);
@@ -45,8 +48,9 @@ Still missing w.r.t. `PinterpSoundFull`:
     occurring in policy, request, σ and store is present or bound) and is not proved.  Proved and non-vacuous: every
     dereference of a missing entity whose unknown is bound agrees (the `.residual` arms inside `PS.pinterp_sound3`,
     `PS.papplyBinary_sound3`);
-  * the one-round statement on the *unsubstituted* store for stores whose residual attributes are all direct unknowns
-    (only the kernel-checked instance `direct_unknown_one_round`);
+  * the one-round statement on the *unsubstituted* store for stores whose residual attributes are all direct unknowns is
+    proved at expression level (`pinterp_sound_store_reauth_direct`), not lifted to `reauthorize` on policy sets
+    (`PolicyAgrees` / `reauthorize_core` fix the second-pass store to `.ofConcrete es`);
   * `CtxCompletes` / `StoreCompletes` are stated through `evaluate ∘ substUnk` of the residual attribute / context, not
     through `RestrictedEvaluator` (`rinterp`) as `Context::substitute` computes it; `concretize_request = ok` stays a hypothesis;
   * calls of the `unknown` function in the policy text (no concrete counterpart: `Expr::substitute` does not look into them).
@@ -577,6 +581,64 @@ theorem direct_unknown_one_round :
     (∃ pr2, (isAuthorizedCore [] PS.srPreq PS.srPes [PS.srTag]).reauthorize PS.srSigma (.ofConcrete PS.srEs) = .ok pr2 ∧
       pr2.decision = some .allow) :=
   ⟨⟨_, rfl, by decide +kernel⟩, ⟨_, rfl, by decide +kernel⟩, ⟨_, rfl, by decide +kernel⟩⟩
+
+/-- **pinterp_sound_store_reauth_direct** — "for direct-`Unknown` attributes exactly": when every residual attribute
+value of the (concrete-mode) partial store is a *direct* `Unknown` and no tag value is residual (`PS.DirectUnk`), ONE second
+pass on the **unsubstituted** store `pes` — mapper σ, concretised request — leaves no residual and agrees with the concrete
+evaluation: `get_attr` passes exactly the direct `Unknown`s through the mapper.  (`second_round_needed`,
+`direct_unknown_one_round`: neither "direct" nor "no residual tag" can be dropped.) -/
+theorem pinterp_sound_store_reauth_direct (σ : Mapper) (req : Request) (es : Entities) (env : SlotEnv)
+    (hctx : (Value.record req.context).Canon) {e : Expr} (hf : PS.Frag2 σ e)
+    (m0 : Mapper) (preq : PRequest) (pes : PEntities) (n : Nat) (hm : PS.MapLE m0 σ)
+    (hS : PS.StoreCompletes σ pes es) (hC : PS.Concretizes2 σ es preq req) (hD : PS.DirectUnk pes) :
+    match pinterp m0 preq pes env n e with
+    | .val v => evaluate req es env (e.substUnk σ) = .ok v
+    | .err _ => ∃ c, evaluate req es env (e.substUnk σ) = .error c
+    | .res r => ∀ n', Sem (pinterp σ (.ofConcrete req) pes env n' r) (evaluate req es env (e.substUnk σ))
+    | .fuel => True
+    | .panic => True := by
+  have h := PS.pinterp_sound3 σ req es env hctx m0 preq pes hS hm hC n e hf
+  cases hx : pinterp m0 preq pes env n e with
+  | val v => rw [hx] at h; exact h.1
+  | err c => rw [hx] at h; exact h
+  | res r => rw [hx] at h; exact fun n' => PS.sem_of_agree (PS.bridge_direct σ req es env hctx pes hS hD h.2.2 n') h.1
+  | fuel => trivial
+  | panic => trivial
+
+/-- non-vacuity of `pinterp_sound_store_reauth_direct`: `User::"a"` with `level = unknown("u")`, unknown principal,
+    `principal.level == 1`: the first pass leaves `unknown(principal).level == 1`; the hypotheses hold. -/
+example :
+    let σ : Mapper := [("principal", .prim (.entityUID ⟨"User", "a"⟩)), ("u", .prim (.int 1))]
+    let req : Request := ⟨⟨"User", "a"⟩, ⟨"A", "x"⟩, ⟨"R", "r"⟩, []⟩
+    let preq : PRequest := ⟨.unknown (some "User"), .known ⟨"A", "x"⟩, .known ⟨"R", "r"⟩, some (.value [])⟩
+    let pes : PEntities := ⟨[(⟨"User", "a"⟩, ⟨[("level", .residual (.unknown "u" none))], [], []⟩)], false⟩
+    let es : Entities := [(⟨"User", "a"⟩, ⟨[("level", .prim (.int 1))], [], []⟩)]
+    let e : Expr := .binaryApp .eq (.getAttr (.var .principal) "level") (.lit (.int 1))
+    PS.Frag2 σ e ∧ PS.StoreCompletes σ pes es ∧ PS.Concretizes2 σ es preq req ∧ PS.DirectUnk pes ∧
+    pinterp [] preq pes [] 10 e = .res (.binaryApp .eq (.getAttr (.unknown "principal" (some (.entity "User"))) "level") (.lit (.int 1))) ∧
+    (match pinterp σ (.ofConcrete req) pes [] 10
+        (.binaryApp .eq (.getAttr (.unknown "principal" (some (.entity "User"))) "level") (.lit (.int 1))) with
+      | .val (.prim (.bool b)) => b
+      | _ => false) = true := by
+  intro σ req preq pes es e
+  have hu : PS.UnkOK σ "u" none := ⟨_, rfl, trivial, by intro t ht; cases ht⟩
+  refine ⟨.binaryApp .eq (.getAttr "level" (.var _)) (.lit _), ?_, ⟨⟨rfl, rfl⟩, rfl, rfl, rfl⟩, ⟨rfl, ?_⟩, rfl, by decide +kernel⟩
+  · exact PS.storeCompletes_single _ _ _ rfl
+      (PS.attrsComplete_cons "level" (show PS.AttrCompletes _ _ (.residual _) (.prim (.int 1)) from ⟨.unknown _ _ hu, trivial, fun _ _ => rfl⟩)
+        PS.attrsComplete_nil)
+      PS.attrsComplete_nil
+  · intro u d hfd
+    simp only [pes, PEntities.find?] at hfd
+    split at hfd
+    · cases hfd
+      constructor
+      · intro a r hl
+        simp only [lookupKV] at hl
+        split at hl
+        · cases hl; exact ⟨_, _, rfl⟩
+        · cases hl
+      · intro a r hl; simp [lookupKV] at hl
+    · cases hfd
 
 /-- **missing_unbound_counterexample** (kernel-checked): for an entity missing from a `.partial()` store it is *not*
 enough that it is absent from the completed store — σ has to bind the unknown named by its uid (to the entity itself).
